@@ -77,7 +77,7 @@ def run(tier, seed):
                     hist[name.split(":")[0]] = hist.get(name.split(":")[0], 0) + 1
         # @align paddings (powers of two and not) and every ADDR-segment statement form at the top
         for start in range(0xFFF8, 0x10000):
-            for al in (2, 3, 4, 5, 6, 7, 8, 10, 16, 100, 0x300, 0x8000, 0xFFFF):
+            for al in (2, 3, 4, 5, 6, 7, 8, 10, 16, 100, 0x300, 0x8000, 0xFFFF, 0x10000, 0x20000, 0x40000000, 0x12345):
                 cases.append({"arch": arch, "stmts": [("org", ("num", start)), ("align", ("num", al)), ("label", "after")],
                               "src": f"@org ${start:x}\n@align {al}\nafter:\n", "note": f"align:{TOP - start}:{al}"})
                 cases.append({"arch": arch, "stmts": [("segment", False), ("org", ("num", start)), ("align", ("num", al)), ("label", "after")],
